@@ -85,6 +85,9 @@ fn tokens() -> Vec<String> {
         // a sibling of the configured directory ("root") whose name starts with its name: a
         // containment test on path *strings* instead of components lets `../root-x` through
         "root-x".into(),
+        // a sibling of the configured directory that looks like an installation an earlier run left
+        // behind (it has a data/ subdirectory): "it exists already" is no reason to skip a check
+        "old-inst".into(),
     ]
 }
 
@@ -214,6 +217,9 @@ impl Sandbox {
             for n in DECOYS {
                 std::fs::write(d.join(n), decoy_body(&format!("{tag}/{n}"))).expect("decoy");
             }
+        }
+        for d in [&dir, &absroot] {
+            std::fs::create_dir_all(d.join("old-inst/data")).expect("decoy installation");
         }
         Sandbox { _scratch: scratch, top, root, absroot }
     }
@@ -1408,7 +1414,9 @@ fn universe() -> Vec<TK> {
         }
     }
     for e in [1u8, 2] {
-        for block in [None, Some(0), Some(1), Some(11)] {
+        // (numbers with more digits than the small ones, sharing their low digits: 1 / 100 001 /
+        // 200 001, and the largest chunk index a BLTE file can have)
+        for block in [None, Some(0), Some(1), Some(11), Some(100_001), Some(200_001), Some(16_777_215)] {
             u.push(TK::Blte { ek: e, block });
         }
     }
@@ -1418,7 +1426,7 @@ fn universe() -> Vec<TK> {
             for version in [None, Some(1u8), Some(2)] {
                 u.push(TK::Root { ck: c, parsed, version });
             }
-            for page in [None, Some(0u32), Some(3)] {
+            for page in [None, Some(0u32), Some(3), Some(100_003), Some(u32::MAX)] {
                 u.push(TK::Encoding { ek: c, parsed, page });
             }
             for idx in [0u32, 1, 15] {
